@@ -251,6 +251,7 @@ def run_property(prop_id, tier, seed, workers=None):
     scopes = {}; new_groups = Counter()
     errors = []
     timed_out = []
+    stopped_early = False
     os.environ["VERIF_TIER_RUNNING"] = tier
     serial = getattr(mod, "SERIAL", False) or workers == 1
     if serial:
@@ -293,6 +294,12 @@ def run_property(prop_id, tier, seed, workers=None):
             sc = scopes.setdefault(r["scope"], {"tasks": 0, "states": 0, "transitions": 0, "cpu_s": 0.0})
             sc["tasks"] += 1; sc["states"] += r["states"]; sc["transitions"] += r["transitions"]
             sc["cpu_s"] = round(sc["cpu_s"] + r["task_s"], 2)
+            if merged["new_count"] and os.environ.get("VERIF_STOP_FIRST"):
+                # mutation sweeps only (tools/mutation_sweep.py): the verdict "violated" is already decided, skip the rest
+                stopped_early = True
+                if pool is not None:
+                    pool.terminate()
+                break
     finally:
         if pool is not None:
             pool.close(); pool.join()
@@ -347,7 +354,7 @@ def run_property(prop_id, tier, seed, workers=None):
         "evaluations": merged["transitions"], "distinct_nontrivial": merged["nontrivial"],
         "rule": getattr(mod, "RULE", ""),
         "samples": samples[:6] or ["<none>"],
-        "exhaustive": not timed_out,
+        "exhaustive": not timed_out and not stopped_early,
         "tasks_timed_out": timed_out[:20],
         "bounds": getattr(mod, "bounds", lambda t: {})(tier),
         "scopes": scopes, "tasks": n, "workers": workers,
